@@ -607,6 +607,10 @@ class Verifier:
                 if isinstance(b.t.elem, ObjT) and b.t.elem.family in FAMILY_EQ:
                     raise Unsupported('`in` over a family with custom __eq__')
                 ta = type_of(a)
+                if isinstance(ta, OptT) and not isinstance(b.t.elem, OptT) and unify_types(ta.inner, b.t.elem) is not None:
+                    # None is never an element of a list of non-optional values
+                    return z3.And(z3.Not(opt_is_none(ta, a.z)),
+                                  z3.Contains(b.z, z3.Unit(pack(strip_opt(a), b.t.elem))))
                 if unify_types(ta, b.t.elem) is None:
                     return z3.BoolVal(False)
                 return z3.Contains(b.z, z3.Unit(pack(a, b.t.elem)))
@@ -798,8 +802,36 @@ class Verifier:
         return self.comprehension(node, st, 'gen')
 
     def ev_SetComp(self, node, st):
+        g = node.generators[0]
+        it = self.ev(g.iter, st) if len(node.generators) == 1 else None
+        if isinstance(it, SV) and isinstance(it.t, SeqT) and self.iter_items(it, st, node) is None:
+            return self.symbolic_setcomp(node, g, it, st)
         r = self.comprehension(node, st, 'set')
         return MFrozen(r.items) if isinstance(r, MList) else r
+
+    def symbolic_setcomp(self, node, g, it, st):
+        """{elt for x in seq if cond}: fresh set R with  y in R  <=>  exists i. cond(seq[i]) and y == elt(seq[i])"""
+        i = z3.Int(fresh_name('sc'))
+        x = SV(it.t.elem, it.z[i])
+        sub = st.fork()
+        self.spec_mode += 1
+        try:
+            self.bind_target(g.target, x, sub, node)
+            cond = z3.BoolVal(True)
+            for f in g.ifs:
+                cond = z3.And(cond, truthy(self.ev(f, sub)))
+            elt = self.ev(node.elt, sub)
+        finally:
+            self.spec_mode -= 1
+        t = type_of(elt)
+        r = fresh(SetT(t), 'setcomp')
+        y = z3.Const(fresh_name('sy'), sort_of(t))
+        n = z3.Length(it.z)
+        dom = z3.And(i >= 0, i < n)
+        ez = pack(elt, t)
+        st.assume(z3.ForAll([i], z3.Implies(z3.And(dom, cond), z3.Select(r.z, ez))))
+        st.assume(z3.ForAll([y], z3.Implies(z3.Select(r.z, y), z3.Exists([i], z3.And(dom, cond, ez == y)))))
+        return r
 
     def comprehension(self, node, st, kind):
         if len(node.generators) != 1:
